@@ -46,6 +46,9 @@ def short(q):
     return (q or "").replace("datasketches::", "")
 
 
+_VALUES = [False]
+
+
 def txt(e, inl=None, depth=0):
     """readable normalised text of an expression (this-> stripped, casts stripped)"""
     e = strip(e)
@@ -53,8 +56,10 @@ def txt(e, inl=None, depth=0):
         return "?"
     k = e.get("k")
     if k == "Ref":
-        if inl and e["d"] in inl and depth < 5:
+        if inl and e.get("d") in inl and depth < 5:
             return txt(inl[e["d"]], inl, depth + 1)
+        if _VALUES[0] and "v" in e and e.get("t") != "bool" and (e.get("dk") in ("global", "enum") or e.get("isstatic")):
+            return str(e["v"])
         return e["n"]
     if "v" in e and k not in ("Call", "Assign", "OpCall") and e.get("t") != "bool":
         return str(e["v"])
@@ -326,3 +331,285 @@ def loops_of(n):
     out = []
     walk(n, lambda x: out.append(x) if x.get("k") in ("For", "While", "Do", "RangeFor") else None)
     return out
+
+
+# ---------------------------------------------------------------------------------------------------------------------------
+# reach conditions: the comparisons / tests that are known to hold when control reaches a node, independent of whether the code
+# is written with nested ifs, guard clauses (`if (!c) return;`), else branches, `continue` / `break`, `&&` chains or ?:
+# ---------------------------------------------------------------------------------------------------------------------------
+_NEG_CMP = {"<": ">=", ">": "<=", "<=": ">", ">=": "<", "==": "!=", "!=": "=="}
+_FLIP_CMP = {"<": ">", ">": "<", "<=": ">=", ">=": "<=", "==": "==", "!=": "!="}
+
+
+def _is_float_expr(e):
+    e = strip(e)
+    t = (e.get("t") or "") if isinstance(e, dict) else ""
+    return "float" in t or "double" in t
+
+
+def _orient(n):
+    if isinstance(n, dict) and n.get("k") == "Bin" and n.get("op") in _FLIP_CMP and txt(n["l"]) > txt(n["r"]):
+        n = dict(n)
+        n["l"], n["r"], n["op"] = n["r"], n["l"], _FLIP_CMP[n["op"]]
+    return n
+
+
+def negate(c):
+    """list of literal nodes whose conjunction is the negation of c (integer comparisons are flipped, || is split by de Morgan;
+    a negated && or a float ordering stays one `!(...)` literal)"""
+    s = strip(c)
+    if not isinstance(s, dict):
+        return []
+    if s.get("k") == "Un" and s.get("op") == "!":
+        return literals(s["e"])
+    if s.get("k") == "Bin" and s.get("op") == "||":
+        return negate(s["l"]) + negate(s["r"])
+    if s.get("k") == "Bin" and s.get("op") in _NEG_CMP:
+        fl = _is_float_expr(s["l"]) or _is_float_expr(s["r"])
+        if not fl or s["op"] in ("==", "!="):
+            n = dict(s)
+            n["op"] = _NEG_CMP[s["op"]]
+            return [_orient(n)]
+    if s.get("k") == "Bool":
+        n = dict(s)
+        n["b"] = not s.get("b")
+        return [n]
+    return [{"k": "Un", "op": "!", "e": s, "loc": s.get("loc"), "t": "bool", "sz": 1}]
+
+
+def literals(c):
+    """list of literal nodes whose conjunction is c"""
+    s = strip(c)
+    if not isinstance(s, dict):
+        return []
+    if s.get("k") == "Bin" and s.get("op") == "&&":
+        return literals(s["l"]) + literals(s["r"])
+    if s.get("k") == "Un" and s.get("op") == "!":
+        inner = strip(s["e"])
+        if isinstance(inner, dict) and (inner.get("k") == "Un" and inner.get("op") == "!" or inner.get("k") == "Bin" and inner.get("op") in ("||",) + tuple(_NEG_CMP)):
+            return negate(inner)
+    return [_orient(s)]
+
+
+def leaves(s):
+    """statement always leaves the enclosing block: return / throw / break / continue on every path"""
+    if s is None:
+        return False
+    k = s.get("k")
+    if k in ("Return", "Break", "Continue"):
+        return True
+    if k == "Expr" and isinstance(strip(s.get("e")), dict) and strip(s["e"]).get("k") == "Throw":
+        return True
+    if k == "Block":
+        return any(leaves(c) for c in s.get("s", []))
+    if k == "If":
+        return leaves(s.get("t")) and leaves(s.get("e"))
+    return False
+
+
+_REACH = {}
+
+
+def _tag(lits, origin):
+    return tuple((l, origin) for l in lits)
+
+
+def reach_map(body):
+    """id(node) -> tuple of (literal node, origin) known to hold when the node is evaluated / executed; origin is one of
+    if / else / after-exit / after-throw / loop / and / or / cond"""
+    key = id(body)
+    hit = _REACH.get(key)
+    if hit is not None and hit[0] is body:
+        return hit[1]
+    m = {}
+
+    def ex(e, ctx):
+        # expressions: short-circuit operators and ?: refine the context of their later operands
+        if isinstance(e, list):
+            for x in e:
+                ex(x, ctx)
+            return
+        if not isinstance(e, dict):
+            return
+        m[id(e)] = ctx
+        k = e.get("k")
+        if k == "Bin" and e.get("op") == "&&":
+            ex(e["l"], ctx)
+            ex(e["r"], ctx + _tag(literals(e["l"]), "and"))
+            return
+        if k == "Bin" and e.get("op") == "||":
+            ex(e["l"], ctx)
+            ex(e["r"], ctx + _tag(negate(e["l"]), "or"))
+            return
+        if k == "Cond":
+            ex(e.get("c"), ctx)
+            ex(e.get("a"), ctx + _tag(literals(e["c"]), "cond"))
+            ex(e.get("e"), ctx + _tag(negate(e["c"]), "cond"))
+            return
+        if k == "Lambda":
+            if isinstance(e.get("body"), dict):
+                st(e["body"], ())
+            return
+        for kk, v in e.items():
+            if isinstance(v, (dict, list)):
+                ex(v, ctx)
+
+    def st(s, ctx):
+        if not isinstance(s, dict):
+            return
+        m[id(s)] = ctx
+        k = s.get("k")
+        if k == "Block":
+            cur = ctx
+            for c in s.get("s", []):
+                st(c, cur)
+                if isinstance(c, dict) and c.get("k") == "If":
+                    lt, le = leaves(c.get("t")), (leaves(c.get("e")) if c.get("e") is not None else False)
+                    if lt and not le:
+                        cur = cur + _tag(negate(c["c"]), "after-throw" if always_throws(c.get("t")) else "after-exit")
+                    elif le and not lt:
+                        cur = cur + _tag(literals(c["c"]), "after-throw" if always_throws(c.get("e")) else "after-exit")
+            return
+        if k == "If":
+            ex(s.get("c"), ctx)
+            st(s.get("t"), ctx + _tag(literals(s["c"]), "if"))
+            if s.get("e") is not None:
+                st(s["e"], ctx + _tag(negate(s["c"]), "else"))
+            return
+        if k in ("For", "While"):
+            if isinstance(s.get("init"), dict):
+                st(s["init"], ctx)
+            ex(s.get("c"), ctx)
+            inner = ctx + (_tag(literals(s["c"]), "loop") if s.get("c") is not None else ())
+            ex(s.get("inc"), inner)
+            st(s.get("b"), inner)
+            return
+        if k in ("Do", "RangeFor"):
+            ex(s.get("c"), ctx)
+            ex(s.get("range"), ctx)
+            st(s.get("b"), ctx)
+            return
+        if k == "Switch":
+            ex(s.get("c"), ctx)
+            st(s.get("b"), ctx)
+            return
+        if k in ("Case", "Default"):
+            ex(s.get("v"), ctx)
+            st(s.get("s"), ctx)
+            return
+        if k == "Try":
+            st(s.get("b"), ctx)
+            for h in s.get("handlers") or []:
+                if isinstance(h, dict):
+                    st(h.get("s"), ctx)
+            return
+        if k == "Decl":
+            for v in s.get("vars", []):
+                if isinstance(v, dict):
+                    ex(v.get("init"), ctx)
+            return
+        if k in ("Expr", "Return"):
+            ex(s.get("e"), ctx)
+            return
+        # anything else (Break, Continue, ...): expressions inside keep the context
+        for kk, v in s.items():
+            if isinstance(v, (dict, list)):
+                ex(v, ctx)
+    st(body, ())
+    _REACH[key] = (body, m)
+    return m
+
+
+def reach_tagged(body, node):
+    return list(reach_map(body).get(id(node), ()))
+
+
+def reach(body, node, skip=()):
+    """literal nodes known to hold when `node` (a statement or expression inside `body`) is reached; `skip`: origins to leave out"""
+    return [l for l, o in reach_map(body).get(id(node), ()) if o not in skip]
+
+
+def reach_txt(body, node, inl=None, skip=()):
+    out = []
+    for l in reach(body, node, skip):
+        t = C(txt(l, inl))
+        if t not in out:
+            out.append(t)
+    return out
+
+
+def induction_locals(fn):
+    """decl ids of locals that are stepped (++ / -- / += / -=) somewhere in the function: loop counters and cursors"""
+    out = set()
+
+    def v(n):
+        if n.get("k") == "Un" and n.get("op") in ("++", "--"):
+            t = strip(n.get("e"))
+            if isinstance(t, dict) and t.get("k") == "Ref" and t.get("dk") == "local":
+                out.add(t["d"])
+        if n.get("k") == "Assign" and n.get("op") in ("+=", "-="):
+            t = strip(n.get("l"))
+            if isinstance(t, dict) and t.get("k") == "Ref" and t.get("dk") == "local":
+                out.add(t["d"])
+    walk(fn.get("body"), v)
+    return out
+
+
+# ---------------------------------------------------------------------------------------------------------------------------
+# canonical text of an expression inside a function: independent of the names of locals / parameters, of hoisting a
+# sub-expression into a const local, and of writing a constant by name or by value
+# ---------------------------------------------------------------------------------------------------------------------------
+_CINL = {}
+
+
+def single_assignment_locals(fn):
+    """decl id -> init expression for locals that are initialised at their declaration and never written again (no assignment,
+    ++ / --, address-of)"""
+    decls, written = {}, set()
+
+    def v(n):
+        k = n.get("k")
+        if k == "Decl":
+            for x in n.get("vars", []):
+                if "d" in x and x.get("init") is not None:
+                    decls[x["d"]] = x["init"]
+        elif k == "Assign":
+            t = strip(n.get("l"))
+            if isinstance(t, dict) and t.get("k") == "Ref":
+                written.add(t.get("d"))
+        elif k == "Un" and n.get("op") in ("++", "--", "&"):
+            t = strip(n.get("e"))
+            if isinstance(t, dict) and t.get("k") == "Ref":
+                written.add(t.get("d"))
+    walk(fn.get("body"), v)
+    return {d: e for d, e in decls.items() if d not in written}
+
+
+def canon_inl(fn):
+    """inlining map for txt(): single-assignment locals -> their initialiser; values taken from a stream, other locals and
+    parameters -> a synthetic name that does not depend on how the source names them (triggers.canon_env)"""
+    hit = _CINL.get(id(fn))
+    if hit is not None and hit[0] is fn:
+        return hit[1]
+    import triggers
+    env = triggers.canon_env(fn)
+    sa = single_assignment_locals(fn)
+    inl = {}
+    for d, ident in env.items():
+        if ident.startswith("=") and d in sa:
+            inl[d] = sa[d]
+        else:
+            inl[d] = {"k": "Ref", "n": ident if not ident.startswith("=") else "local" + ident, "d": None, "dk": "synthetic"}
+    _CINL[id(fn)] = (fn, inl)
+    return inl
+
+
+def ctext(fn, e, values=True):
+    """canonical text of e (an expression of fn): locals inlined / renamed canonically, named constants by value, comparisons
+    oriented as C() orients them"""
+    old = _VALUES[0]
+    _VALUES[0] = values
+    try:
+        return C(txt(e, canon_inl(fn)))
+    finally:
+        _VALUES[0] = old
